@@ -1305,7 +1305,8 @@ def gen_classes(lib_dir: str, header: str) -> str:
     # ---- NamedTuple ------------------------------------------------------------------------------------------
     f = _inner_function(core, "dltyped_namedtuple", "validated_new")
     b = _strip(f.body)
-    if _src(f.args) != "cls_inner: type[NT], *args: Any, **kwargs: Any":
+    # (the receiver is positional-only: a field called like it may be passed by keyword)
+    if _src(f.args) != "cls_inner: type[NT], /, *args: Any, **kwargs: Any":
         raise TErr(f"validated_new: parameters `{_src(f.args)}`")
     if not (len(b) == 5 and _src(b[0]) == "instance = original_new(cls_inner, *args, **kwargs)" and _src(b[1]) == "ctx = _dltype_context.DLTypeContext()"
             and isinstance(b[2], ast.For) and _try_assert(b[3]) and _src(b[4]) == "return instance"):
@@ -1322,7 +1323,7 @@ def gen_classes(lib_dir: str, header: str) -> str:
     # ---- dataclass -------------------------------------------------------------------------------------------
     f = _inner_function(core, "dltyped_dataclass", "new_init")
     b = _strip(f.body)
-    if _src(f.args) != "self: DataclassT, *args: Any, **kwargs: Any":
+    if _src(f.args) != "self: DataclassT, /, *args: Any, **kwargs: Any":
         raise TErr(f"new_init: parameters `{_src(f.args)}`")
     if not (len(b) == 4 and _src(b[0]) == "original_init(self, *args, **kwargs)" and _src(b[1]) == "ctx = _dltype_context.DLTypeContext()" and isinstance(b[2], ast.For) and _try_assert(b[3])):
         raise TErr("new_init: expected `original_init(self, *args, **kwargs)`, a fresh context, the loop over the fields, `try: ctx.assert_context()`; got: "
